@@ -2,6 +2,7 @@ import OdlModel.Common
 import OdlModel.Model.CRat
 import OdlModel.Model.Interp
 import OdlModel.Gen.InterpEdges
+import OdlModel.Model.Sampling
 open OdlModel OdlModel.Interp
 
 /-- real weights acting on (complex) values -/
@@ -132,12 +133,12 @@ def doDispatch (l : Line) : Option String := do
   let h ← l.bool? "hasout"
   let o ← l.bool? "optional"
   let g ← l.bool? "out"
-  let k := callKind h o
+  let k := Sampling.callKind h o
   let ks := match k with
     | .oopOnly => "oopOnly"
     | .dual => "dual"
     | .ipOnly => "ipOnly"
-  some s!"ok kind={ks} user_out={if userGetsOut k g then 1 else 0}"
+  some s!"ok kind={ks} user_out={if Sampling.userGetsOut k g then 1 else 0}"
 
 /-- `classify d=D shape=a,b` answers `ok scalar=0|1 n=N` or `err:value`. -/
 def doClassify (l : Line) : Option String := do
@@ -148,12 +149,41 @@ def doClassify (l : Line) : Option String := do
   | none => some "err:value"
   | some (sc, n) => some s!"ok scalar={if sc then 1 else 0} n={n}"
 
+/-- `sample kind=oopOnly|dual|ipOnly out=0|1 d=D inp=mesh|array|point s=… rshape=… r=…`
+(`r`: the array the user's code computed, flat in C order; `rshape=-` for a scalar) answers
+`ok shape=… a=…` (the array `dual_use_func` returns / leaves in `out`) or `err:value`. -/
+def doSample (l : Line) : Option String := do
+  let k ← match l.get? "kind" with
+    | some "oopOnly" => some Sampling.CallKind.oopOnly
+    | some "dual" => some .dual
+    | some "ipOnly" => some .ipOnly
+    | _ => none
+  let g ← l.bool? "out"
+  let d ← l.nat? "d"
+  let inp ← match l.get? "inp" with
+    | some "mesh" => some Sampling.InputKind.mesh
+    | some "array" => some .array
+    | some "point" => some .point
+    | _ => none
+  let s ← l.nats? "s"
+  let rshape ← l.nats? "rshape"
+  let data := (← l.crats? "r").toArray
+  if data.size ≠ Sampling.size rshape then none
+  let bad : CRat := ⟨123456789, 987654321⟩
+  let r : Sampling.Arr CRat := ⟨rshape, fun idx => data.getD (Sampling.ravel rshape idx) bad⟩
+  match Sampling.sample k g d inp s r with
+  | none => some "err:value"
+  | some a =>
+    let idxs := cartesian (a.shape.map List.range)
+    some s!"ok shape={showNatList a.shape} a={showCList (idxs.map a.get)}"
+
 def handle (l : Line) : Option String :=
   match l.op with
   | "interp" => doInterp l
   | "cast" => doCast l
   | "dispatch" => doDispatch l
   | "classify" => doClassify l
+  | "sample" => doSample l
   | _ => none
 
 def main : IO Unit := driverLoop handle
